@@ -9,7 +9,7 @@ RULE = ("random small programs (seeded) over register q[n], lets, aliases, <=2 m
         "later macros may call earlier ones, zero-parameter macros included; nested blocks, loops, subcircuit blocks), oracle: independent call-by-value reference "
         "semantics (bounded/ref.py) compared with the meaning of expand_macros(parse(text)); non-trivial = program contains a macro call")
 BOUND = "n <= 4, nesting depth <= 3, <= 3 statements per block, <= 2 macros, <= 2 aliases"
-BUDGET_S = {"quick": 40, "thorough": 600}
+BUDGET_S = {"quick": 40, "thorough": 400}
 
 
 def has_macro_call(p):
